@@ -76,6 +76,13 @@ def b_dict_copy(E, st, args, kw):
     return _prev_dict(E, st, args, kw)
 
 
+@R.spec("builtins.vars", doc="vars(<instance>): the instance's OWN attribute dictionary (the live object, the same as obj.__dict__) - not a copy")
+def b_vars(E, st, args, kw):
+    if len(args) == 1 and isinstance(args[0], VObj) and args[0].cls == "Pyro5.callcontext._CallContext":
+        return [Res(st, st.new_obj("instance_dict_view", of=args[0]))]
+    raise Unsupported("vars(%r)" % (args,))
+
+
 @R.model("dict_snapshot")
 class DictSnapshot:
     """a dict with a statically known key set (string keys)"""
